@@ -435,6 +435,7 @@ func mainC03(seed uint64, n int, out string, rp *replayInput) {
 	w := coqout.NewWriter(out, coqHeader, "run_c03", "c03_eqb", 25)
 	sum := coqout.NewSummary("seeded histories (1-80 operations: insert, remove, remove-existing, get, seek/rewind iteration of up to n+1 items, tree commit, close+reopen at the committed root, overlay push/commit/discard/copy up to depth 4) on the real tree (with and without write log) over backends mem/badger/pathbadger with node capacities {0,1,2,3,8,16,32,5000} (long histories of 40-160 operations biased to new keys for about 20% of the cases) and value capacities {0,1,16,64,16M}; keys of 0-4 bytes over {00,01,80,ff} plus long keys, values of 0-8 bytes; " +
 		"compared: the answer of every operation; non-trivial = the case has at least one overlay push and at least one iteration or remove-existing with a non-empty answer; distinct = distinct operation-kind sequences among those")
+	sum.Extra["finding_rules"] = findingRules
 	defer func() {
 		w.Close()
 		sum.Write(out)
@@ -456,6 +457,9 @@ func mainC03(seed uint64, n int, out string, rp *replayInput) {
 		st.add("reopens", bucket(r.reopens, 0, 1, 2, 4))
 		if evicting(c) {
 			st.add("features", "evicting_config")
+		}
+		if k, ok := smallValueCapClass(c, r.sig, r.viol != nil); ok {
+			st.add("small_value_cap", k)
 		}
 		st.into(sum)
 		if r.answered && r.pushed {
